@@ -211,6 +211,27 @@ def parse_bmat(toks):
                 key = (I * br + r, J * bc + c); d[key] = d.get(key, Fraction(0)) + v
     return fmt, nbr * br, nbc * bc, br, bc, {k: v for k, v in d.items() if v != 0}, (fmt, nbr, nbc, br, bc, idx1, idx2, pos)
 
+def bmat_lines(toks):
+    """block result tokens -> (header, list of lines; a line = sorted list of (index..., block values as Fractions))"""
+    fmt, nbr, nbc, br, bc, nnz = toks[0], int(toks[1]), int(toks[2]), int(toks[3]), int(toks[4]), int(toks[5])
+    i1 = toks.index("I1"); i2 = toks.index("I2"); iv = toks.index("V")
+    idx1 = [int(x) for x in toks[i1 + 1:i2]]; idx2 = [int(x) for x in toks[i2 + 1:iv]]
+    vals = [nums.parse_num(x) for x in toks[iv + 1:]]; b = br * bc
+    blocks = [tuple(vals[k * b:(k + 1) * b]) for k in range(nnz)]
+    if fmt == "bcoo": lines = [sorted(zip(idx1, idx2, blocks), key=lambda e: (e[0], e[1], [float(x) for x in e[2]]))]
+    else: lines = [sorted(zip(idx2[idx1[l]:idx1[l + 1]], blocks[idx1[l]:idx1[l + 1]]), key=lambda e: (e[0], [float(x) for x in e[1]])) for l in range(len(idx1) - 1)]
+    return (fmt, nbr, nbc, br, bc, nnz), lines
+
+def bmats_equal(ti, tm):
+    hi, li = bmat_lines(ti); hm, lm = bmat_lines(tm)
+    if hi != hm: return False, "header (format, block rows, block cols, b_rows, b_cols, blocks) %s vs model %s" % (hi, hm)
+    for k, (x, y) in enumerate(zip(li, lm)):
+        if len(x) != len(y): return False, "line %d: %d vs %d blocks" % (k, len(x), len(y))
+        for e, f in zip(x, y):
+            if e[:-1] != f[:-1] or any(not nums.close(a, b_, 1e-9, 1e-12) for a, b_ in zip(e[-1], f[-1])):
+                return False, "line %d: %s vs model %s" % (k, e, f)
+    return True, ""
+
 def run_block_chain(ctx):
     """block forms: chains of <= 3 of {to_BCOO,to_BSR,to_BSC,copy,transpose,sort,move_diag,remove_duplicates,to_CSR} on BCOO/BSR/BSC
     matrices (rectangular block grids and rectangular blocks, duplicate block positions); oracle = dense image, dimensions, format"""
@@ -244,6 +265,9 @@ def run_block_chain(ctx):
                           nr=nr, nc=nc, br=ebr, bc=ebc, fmt=efmt, ops=ops, src=fmt, nblk=nblk))
     lines = [c["line"] for c in cases]
     impl, crashed = fw.run_impl_lines(ctx, "drv_matrix", lines, nprocs=0, name="c07bchain")
+    cf = fw.write_cases(ctx, "c07bchain.cases", lines)
+    rcm, model, _, errm = fw.run_model(ctx, cf)
+    if rcm != 0: ctx.signal("K", "modeldriver", "model driver exited with %s: %s" % (rcm, errm[-400:]))
     for c in cases:
         ctx.evaluations += 1; ctx.count("block_src_" + c["src"])
         for o in c["ops"]: ctx.count("bop_" + o)
@@ -263,6 +287,18 @@ def run_block_chain(ctx):
         elif ok and (fmt, br, bc) != (c["fmt"], c["br"], c["bc"]): ok, why = False, "format/block size %s, expected %s" % ((fmt, br, bc), (c["fmt"], c["br"], c["bc"]))
         if not ok:
             ctx.signal("O", sig, "operator/dimension/format postcondition violated: " + why, case=c["line"], extra=dict(impl=" ".join(ri[0][1])[:600]))
+        # K: the extracted polymorphic model at blocks (BCOO move_diag and the scalar conversions are not modelled)
+        rm = model.get(c["cid"])
+        if rm and rm[0][0] == "UNSUPPORTED" or (c["src"] == "bcoo" or "to_bcoo" in c["ops"]) and "move_diag" in c["ops"]:
+            ctx.count("bchain_not_modelled"); continue
+        if not rm or rm[0][0] != "R":
+            ctx.signal("K", sig + ":model", "model produced no result: %s" % (rm,), case=c["line"]); continue
+        ctx.compared += 1
+        try: eq, why = bmats_equal(ri[0][1], rm[0][1])
+        except (ValueError, IndexError) as e: eq, why = False, "unreadable: %s" % e
+        if not eq:
+            ctx.signal("K", sig, "model and implementation differ: " + why, case=c["line"],
+                       extra=dict(impl=" ".join(ri[0][1])[:600], model=" ".join(rm[0][1])[:600]))
 
 def dict_from_line(line):
     """rebuild a case from its text (replay)"""
